@@ -34,6 +34,7 @@ RULE = ('one evaluation = one seeded run: (hist) a single-client history of 20-2
         'must map to one shard; non-trivial = at least 10 calls / at least one key compared; distinct = SHA-256 of the case')
 RULE += ' ' + 'Histories also change a setting (cull_limit) through one handle and reload it (reset(key)) through the others; every shard of every handle is inspected afterwards.'
 RULE += ' ' + 'Two seeds in a hundred change a disk_ setting on a live handle and read keys written afterwards through a fresh handle.'
+RULE += ' ' + 'The equal-keys probe also runs with a Disk subclass whose put() folds keys.'
 ASSUMPTIONS = ['histories use at most one member of each numerically-equal int/float pair (their split routing is known finding F11 and is probed separately)']
 PROBES = ('cull_expired', 'reopen', 'unpickled_handle', 'routing_keys_compared', 'xproc_runs', 'two_handles', 'reopen_with_new_limit', 'setting_changed', 'disk_setting_changed_live')
 TECHNIQUE = 'deterministic simulation (virtual clock, simulated processes) + per-shard model-based checking; routing compared with a recorded table and across fresh interpreters with different hash seeds'
@@ -85,7 +86,12 @@ def gen_case(seed, tier):
         return {'seed': seed, 'cfg': {'kind': 'disk_setting', 'shards': rng.choice((2, 3, 8, 13)), 'first': rng.choice((None, 0, 2, 4)),
                                       'then': rng.choice((0, 2, 3, 5)), 'json': rng.random() < 0.2}}
     if r < 0.10:
-        return {'seed': seed, 'cfg': {'kind': 'pairs', 'shards': rng.choice((2, 3, 8, 13)), 'pair': rng.randrange(len(PAIRS))}}
+        cfg = {'kind': 'pairs', 'shards': rng.choice((2, 3, 8, 13)), 'pair': rng.randrange(len(PAIRS))}
+        if rng.random() < 0.4:
+            cfg['fold'] = rng.choice((['Alpha', 'alpha'], ['KEY-%d' % rng.randrange(50), 'key-%d' % 0], [7, {'f': '7.0'}], ['Stra\u00dfe', 'strasse']))
+            if cfg['fold'][1] == 'key-0':
+                cfg['fold'][1] = cfg['fold'][0].lower()
+        return {'seed': seed, 'cfg': cfg}
     settings = seqcache.gen_settings(rng, 'c13')
     settings.pop('disk_pickle_protocol', None)
     proto = rng.choice((None, None, 0, 2, 4, 5))
@@ -100,6 +106,8 @@ def gen_case(seed, tier):
     finally:
         seqcache.KEYS = saved
     prog = [op for op in prog if op['op'] not in ('peekitem', 'iterkeys', 'push', 'pull', 'peek')]
+    for op in prog:
+        op.pop('now_shift', None)      # FanoutCache.expire() takes no `now`
     for op in prog:
         if op['op'] == 'read' and op.get('k') is None:
             pass
@@ -380,9 +388,22 @@ def run_pairs(case):
     world = World(case['seed'], clock={'mode': 'frozen'}, yield_clock=False)
     try:
         dc = world.dc
-        fc = dc.FanoutCache(world.path('f'), shards=cfg['shards'])
+        dkw = {}
+        if cfg.get('fold'):
+            # a user Disk (the documented extension point) whose put() maps several spellings to one stored key
+            a, b = cfg['fold']
+
+            class FoldDisk(dc.Disk):
+                def put(self, key):
+                    if type(key) is str:
+                        key = key.casefold()
+                    elif type(key) is float and key == int(key):
+                        key = int(key)
+                    return super().put(key)
+            dkw = {'disk': FoldDisk}
+        fc = dc.FanoutCache(world.path('f'), shards=cfg['shards'], **dkw)
         ka, kb = vals.dec(a), vals.dec(b)
-        plain = dc.Cache(world.path('c'))
+        plain = dc.Cache(world.path('c'), **dkw)
         plain[ka] = 'v'
         same_in_cache = kb in plain
         fc[ka] = 'v'
@@ -390,7 +411,7 @@ def run_pairs(case):
         sb = fc._hash(kb) % fc._count
         found = kb in fc
         if same_in_cache and (sa != sb or not found):
-            violations.append({'rule': 'C13/equal-keys-different-shards', 'sig': 'numerically-equal-int-float',
+            violations.append({'rule': 'C13/equal-keys-different-shards', 'sig': 'user-disk-folds-keys' if cfg.get('fold') else 'numerically-equal-int-float',
                                'detail': 'Cache treats %r and %r as one key, FanoutCache(shards=%d) routes them to shards %d and %d (lookup finds it: %s)'
                                          % (ka, kb, cfg['shards'], sa, sb, found)})
         plain.close()
